@@ -69,3 +69,10 @@ Example C17_examples :
   subst_env [([85]%N, [120;121]%N); ([86]%N, [122]%N)] [97;36;123;85;125;98;36;123;87;125;36;123;85;125;36;123;86;125]%N =
     [97;120;121;98;36;123;87;125;120;121;122]%N.                            (* "a${U}b${W}${U}${V}" *)
 Proof. vm_compute. repeat split; reflexivity. Qed.
+
+(* what the property demands of the witness of the known finding unit-float-rounding (known_findings.json): the exact
+   product 18476.7341 x 1024^3 = 19839242174096.9984 truncated. The implementation converts through float64 and returns
+   19839242174097 (the harness replays this input on every run). *)
+Example C17_float_witness :
+  resolve (UStr [49;56;52;55;54;46;55;51;52;49;32;71;98]%N) = Some 19839242174096%Z.
+Proof. vm_compute. reflexivity. Qed.
